@@ -38,7 +38,8 @@ class Controller:
         p = self.park
         if p is not None and threading.get_ident() == p['thread']:
             p['count'] += 1
-            if p['count'] == p['at']:
+            if p['count'] == p.get('at') or (p.get('match') == (kind, detail) and not p.get('hit')):
+                p['hit'] = True
                 p['parked'].set()
                 p['resume'].wait()
         self.count += 1
